@@ -331,6 +331,12 @@ func owSeqScenario(p owParams) func() {
 			})
 		}
 		settle()
+		if untimed {
+			// the history was untimed; the judgement is not: a send-waiting call may wait for the connection
+			for i := 0; i < 4 && mc.FireTimers(nil) > 0; i++ {
+				mc.Quiesce()
+			}
+		}
 		for i, c := range calls {
 			for id := 1; id <= n; id++ {
 				e := w.Entered(id, c.Tok)
